@@ -128,6 +128,44 @@ func TestC05(t *testing.T) {
 		r.Class("many_same_base")
 	}
 
+	// (a'') blank imports that are referenced as well, fragments rendered against the File before its first
+	// render, part of the body added after it: small enumerated family
+	ckA := hx.Check[imps.Scenario]{Name: "anon_then_fragments", Fn: check}
+	if !hx.Replay(r, ckA) && r.Shard == 0 {
+		n := 0
+		for _, pair := range [][2]string{{"x.example/db/driver", "y.example/net/driver"}, {"math/rand", "crypto/rand"}, {"a/int", "b/int"}, {"a/d", "b/d1"}} {
+			for _, prefix := range []string{"", "pkg"} {
+				for anon := 1; anon <= 3; anon++ { // bit 0: first path, bit 1: second path
+					for preview := 0; preview <= 2; preview++ {
+						for late := 0; late <= 1; late++ {
+							sc := imps.Scenario{File: recipe.File{Ctor: "NewFile", Args: []recipe.Text{"p"}}, Paths: []string{pair[0], pair[1]}}
+							var anons []recipe.Text
+							for i := 0; i < 2; i++ {
+								if anon&(1<<uint(i)) != 0 {
+									anons = append(anons, recipe.Text(pair[i]))
+								}
+							}
+							sc.File.Ops = append(sc.File.Ops, recipe.FileOp{Op: "Anon", Args: anons})
+							if prefix != "" {
+								sc.File.Ops = append(sc.File.Ops, recipe.FileOp{Op: "PackagePrefix", Args: []recipe.Text{recipe.Text(prefix)}})
+							}
+							for i, p := range sc.Paths {
+								sc.File.Body = append(sc.File.Body, recipe.S().C("Var").C("Id", "_").C("Op", "=").Add(recipe.Qual(p, fmt.Sprintf("S%d", i))))
+							}
+							sc.Split = len(sc.File.Ops) + 1
+							sc.Preview = preview
+							sc.LateBody = late
+							hx.One(r, ckA, sc)
+							r.NonTrivial(recipe.JSON(sc))
+							n++
+						}
+					}
+				}
+			}
+		}
+		r.ClassN("anon_then_fragments", n)
+	}
+
 	profiles := []struct {
 		name string
 		pr   imps.Profile
